@@ -33,6 +33,8 @@ def run_case(case, rng):
     sp = G.random_spec(rng, base, n_max=n_max, min_states=2 if fam in ("stray", "ghostzero") else 1,
                        near_absorbing=(base == "any"))
     rep = rng.choice(Bd.REPRS)
+    if fam not in ("stray", "ghostzero") and rng.random() < 0.1:
+        rep = "annotated"       # equal-but-distinct state objects whose step note the reward function reads
     explicit = rep.endswith("explicit")
     ghost = None
     # dead-end state (no actions) occasionally, explicit lists only (an inferred closure would be fine
